@@ -230,13 +230,16 @@ def compare(raw, ext, obs):
             norm = " ".join(o["comments"].split())
             eq = lambda lines: norm == " ".join(" ".join(lines).split())
         if not eq(e["comments"]):
-            stale = (e.get("stale") or {}).get(ext) or []
+            runs = (e.get("stale") or {}).get(ext) or []
+            # pending runs of earlier message-less constructs; any non-empty tail of that chain (whole runs) counts as
+            # the stale-comment layout, so that the label does not depend on which other findings are fixed
+            tails = [[l for r in runs[k:] for l in r] for k in range(len(runs))]
             split_obs = e.get("split_obs")
             if split_obs is not None and eq(split_obs):
                 keys = ["comment-split-block"]
-            elif split_obs is not None and stale and eq(stale + list(split_obs)):
+            elif split_obs is not None and any(eq(t + list(split_obs)) for t in tails):
                 keys = ["comment-split-block", "comment-stale-leak"]
-            elif stale and eq(stale + list(e["comments"])):
+            elif any(eq(t + list(e["comments"])) for t in tails):
                 keys = ["comment-stale-leak"]
             elif not e["comments"]:
                 keys = ["%s:wrong-comment:unexpected%s" % (ext, ":far" if e.get("tc_far") else "")]
